@@ -234,6 +234,10 @@ fn ref_leaf() -> impl Strategy<Value = Value> {
     (0usize..2).prop_map(|k| json!({"$ref": format!("#/$defs/d{}", k)}))
 }
 
+fn constrain_count_early(minp: &Option<u64>, maxp: &Option<u64>) -> bool {
+    minp.is_some() || maxp.is_some()
+}
+
 fn object_schema(p: Profile, inner: BoxedStrategy<Value>) -> BoxedStrategy<Value> {
     let props = proptest::collection::vec((0..KEYS.len(), inner.clone(), any::<bool>()), 0..4);
     let addl = prop_oneof![
@@ -255,7 +259,7 @@ fn object_schema(p: Profile, inner: BoxedStrategy<Value>) -> BoxedStrategy<Value
     let all_extras = match p {
         Profile::Full => Just((None, None, None)).boxed(),
         Profile::All => (
-            proptest::option::weighted(0.3, (0usize..6, inner.clone())),
+            proptest::option::weighted(0.3, (0usize..10, inner.clone())),
             proptest::option::weighted(0.2, 0u64..3),
             proptest::option::weighted(0.2, 0u64..3),
         )
@@ -278,6 +282,22 @@ fn object_schema(p: Profile, inner: BoxedStrategy<Value>) -> BoxedStrategy<Value
                     req.push(json!(key));
                 }
             }
+            // a pattern that names exactly one or two keys: declare those keys too (with the pattern's schema, so that the
+            // member can satisfy both), otherwise the shape "every key the pattern can match is already declared" is rare
+            if let Some((which, s)) = &patp {
+                let names: &[&str] = match which {
+                    6 => &["a"],
+                    7 => &["a", "b"],
+                    8 => &["key"],
+                    9 => &["q7"],
+                    _ => &[],
+                };
+                for n in names {
+                    if !pm.contains_key(*n) && !constrain_count_early(&minp, &maxp) {
+                        pm.insert(n.to_string(), s.clone());
+                    }
+                }
+            }
             if let Some(k) = extra_req {
                 if !pm.contains_key(KEYS[k]) && addl != Some(json!(false)) {
                     req.push(json!(KEYS[k]));
@@ -297,7 +317,9 @@ fn object_schema(p: Profile, inner: BoxedStrategy<Value>) -> BoxedStrategy<Value
             if let Some((which, s)) = patp {
                 // patterns may match declared names (x1, "x y", a, a"b, p_1, q7, y_2): such a member must
                 // satisfy both its own schema and the pattern's
-                let pat = ["^p_", "^q[0-9]$", "^x", "^a", "_2$", "^[a-b]"][which];
+                // the last four match exactly one or two names that are often declared: with additionalProperties false
+                // no further key can match the pattern at all
+                let pat = ["^p_", "^q[0-9]$", "^x", "^a", "_2$", "^[a-b]", "^a$", "^(a|b)$", "^key$", "^q7$"][which];
                 m.insert("patternProperties".into(), json!({ pat: s }));
             }
             if let Some(a) = addl {
@@ -348,6 +370,48 @@ fn array_schema(inner: BoxedStrategy<Value>) -> BoxedStrategy<Value> {
         .boxed()
 }
 
+/// "Tagged union written payload-first": anyOf of 3-5 records (objects or tuples) that start with the same member,
+/// whose scalar schemas overlap (integer / number / bounded integer, strings with different length bounds ...), and
+/// are told apart only by a later `const`.  While the payload is read several distinct lexemes match the same text.
+fn tagged_union() -> BoxedStrategy<Value> {
+    let nums = vec![
+        json!({"type":"integer"}),
+        json!({"type":"number"}),
+        json!({"type":"integer","minimum":0}),
+        json!({"type":"number","maximum":1000}),
+        json!({"type":"integer","minimum":-5,"maximum":500}),
+    ];
+    let strs = vec![
+        json!({"type":"string"}),
+        json!({"type":"string","maxLength":4}),
+        json!({"type":"string","maxLength":9}),
+        json!({"type":"string","minLength":1}),
+        json!({"enum":["ab","abc","x"]}),
+    ];
+    (any::<bool>(), any::<bool>(), proptest::sample::subsequence((0..5usize).collect::<Vec<_>>(), 3..=5), any::<bool>()).prop_map(move |(numeric, as_tuple, picks, shuffle)| {
+        let pool = if numeric { &nums } else { &strs };
+        let mut picks = picks;
+        if shuffle {
+            picks.reverse();
+        }
+        let branches: Vec<Value> = picks
+            .iter()
+            .enumerate()
+            .map(|(i, &k)| {
+                let tag_name = ["pos", "neg", "third", "fourth", "fifth"][i];
+                let tag = json!({ "const": tag_name });
+                if as_tuple {
+                    json!({"type":"array","prefixItems":[pool[k].clone(), tag],"items":false,"minItems":2})
+                } else {
+                    json!({"type":"object","properties":{"val":pool[k].clone(),"kind":tag},"required":["val","kind"],"additionalProperties":false})
+                }
+            })
+            .collect();
+        json!({"anyOf": branches})
+    })
+    .boxed()
+}
+
 fn tree(p: Profile, with_refs: bool) -> BoxedStrategy<Value> {
     let leaf = if with_refs {
         prop_oneof![8 => leaf_schema(p), 1 => ref_leaf()].boxed()
@@ -356,9 +420,10 @@ fn tree(p: Profile, with_refs: bool) -> BoxedStrategy<Value> {
     };
     leaf.prop_recursive(3, 16, 4, move |inner| {
         let base = prop_oneof![
-            4 => object_schema(p, inner.clone()),
-            3 => array_schema(inner.clone()),
-            2 => proptest::collection::vec(inner.clone(), 2..4).prop_map(|v| json!({"anyOf": v})),
+            8 => object_schema(p, inner.clone()),
+            6 => array_schema(inner.clone()),
+            4 => proptest::collection::vec(inner.clone(), 2..4).prop_map(|v| json!({"anyOf": v})),
+            1 => tagged_union(),
         ];
         match p {
             Profile::Full => base.boxed(),
@@ -443,7 +508,51 @@ fn guard_refs(v: &mut Value, guarded: bool) {
     }
 }
 
+/// "Type alias" definitions: a `$defs` entry whose whole body is a `$ref` to another entry (chains of one to three
+/// aliases), used from several places, the target itself used directly later, earlier or not at all.
+fn alias_schema(p: Profile) -> BoxedStrategy<Value> {
+    (leaf_schema(p), 1usize..4, 2usize..5, 0u8..3, any::<bool>(), xguidance()).prop_map(|(target, chain, uses, direct, as_array, xg)| {
+        let mut defs = Map::new();
+        // a0 -> a1 -> ... -> Point
+        for i in 0..chain {
+            let next = if i + 1 == chain { "Point".to_string() } else { format!("a{}", i + 1) };
+            defs.insert(format!("a{}", i), json!({"$ref": format!("#/$defs/{}", next)}));
+        }
+        defs.insert("Point".into(), json!({"type":"object","properties":{"x":target,"y":{"type":"integer"}},"required":["x"],"additionalProperties":false}));
+        let mut props = Map::new();
+        let mut req = vec![];
+        if direct == 1 {
+            props.insert("first".into(), json!({"$ref":"#/$defs/Point"}));
+        }
+        for u in 0..uses {
+            let r = json!({"$ref":"#/$defs/a0"});
+            props.insert(format!("p{}", u), if as_array && u % 2 == 1 { json!({"type":"array","items":r,"maxItems":2}) } else { r });
+            if u % 2 == 0 {
+                req.push(json!(format!("p{}", u)));
+            }
+        }
+        if direct == 2 {
+            props.insert("last".into(), json!({"$ref":"#/$defs/Point"}));
+        }
+        let mut m = Map::new();
+        if let Some(x) = xg {
+            m.insert("x-guidance".into(), x);
+        }
+        m.insert("type".into(), json!("object"));
+        m.insert("properties".into(), Value::Object(props));
+        m.insert("required".into(), Value::Array(req));
+        m.insert("additionalProperties".into(), json!(false));
+        m.insert("$defs".into(), Value::Object(defs));
+        Value::Object(m)
+    })
+    .boxed()
+}
+
 pub fn schema_strategy(p: Profile) -> BoxedStrategy<Value> {
+    prop_oneof![14 => schema_strategy_main(p), 1 => alias_schema(p)].boxed()
+}
+
+fn schema_strategy_main(p: Profile) -> BoxedStrategy<Value> {
     (tree(p, true), def_body(p), def_body(p), xguidance())
         .prop_map(|(body, mut d0, mut d1, xg)| {
             guard_refs(&mut d0, false);
